@@ -168,6 +168,29 @@ def normalize_origin(origin):
     return "%s://%s:%s" % (scheme, host, port)
 
 
+def origin_has_host(o):
+    """RFC 3986 reading: does the value carry an authority with a non-empty host ('scheme://host...' or '//host...')?"""
+    m = re.match(r"^[A-Za-z][A-Za-z0-9+.\-]*:(.*)$", o, re.S)
+    rest = m.group(1) if m else o
+    m2 = re.match(r"^//([^/?#]*)", rest)
+    if not m2:
+        return False
+    host = m2.group(1).rsplit("@", 1)[-1]
+    if not host.startswith("["):
+        host = re.sub(r":[^:]*$", "", host) if ":" in host else host
+    return host.strip() not in ("", "[]")
+
+
+def allow_list_is_restricted(patterns):
+    """Every pattern names (part of) a host literally - i.e. none is a catch-all like '*' or '*://*:*'."""
+    for p_ in patterns:
+        hostpart = p_.split("://", 1)[-1]
+        hostpart = hostpart.rsplit(":", 1)[0] if ":" in hostpart else hostpart
+        if not re.search(r"[A-Za-z0-9]", hostpart):
+            return False
+    return bool(patterns)
+
+
 def key_class(value):
     """'ok' | 'grey' | 'bad' for a Sec-WebSocket-Key value: base64 of exactly 16 octets."""
     if re.match(r"^[A-Za-z0-9+/]{22}==$", value):
@@ -383,7 +406,15 @@ def classify_request(data, cfg):
                 norm = normalize_origin(o)
                 info["origin_norm"] = norm
                 if norm is None:
-                    grey.append("origin-syntax")
+                    if o.strip(" \t") == "" or o.lower() == "null" or o.lower().startswith("file:"):
+                        # empty (as good as absent), other spellings of null, file: URLs (documented as the null origin)
+                        grey.append("origin-syntax")
+                    elif not origin_has_host(o) and allow_list_is_restricted(cfg.allowed_origins):
+                        # a value WITHOUT a host cannot be matched "as a whole" against scheme://host:port patterns that name a
+                        # host; only the literal "null" goes through allowNullOrigin
+                        reject.append("origin-hostless-not-allowed")
+                    else:
+                        grey.append("origin-syntax")
                 elif not any(glob_match(p, norm) for p in cfg.allowed_origins):
                     reject.append("origin-not-allowed")
 
@@ -549,7 +580,12 @@ def classify_response(data, cfg):
         names = [n for n, _ in exts]
         info["ext_names"] = names
         if len(set(names)) != len(names):
-            grey.append("extension-repeated")
+            if any(names.count(n) > 1 and n in KNOWN_PMCE for n in names):
+                # one connection has ONE compression configuration (RFC 7692 section 5: the server accepts at most one PMCE offer);
+                # the property: "no extension other than a compression extension its accept policy approved"
+                reject.append("extension-duplicate")
+            else:
+                grey.append("extension-repeated")
         for name, params in exts:
             if name not in KNOWN_PMCE:
                 reject.append("extension-unknown")
@@ -665,6 +701,19 @@ def selfcheck():
     assert check_server_response(resp.replace(b"chat", b"other"), v)[0][0] == "protocol-not-offered"
     assert glob_match("*://*.good.com:*", "http://a.good.com:80") and not glob_match("*://*.good.com:*", "http://a.good.com.evil.com:80")
     assert not glob_match("http://good.com:80", "http://good.com:8080") and not glob_match("http://good.com:80", "http://evilgood.com:80")
+    restricted = ServerCfg(allowed_origins=["http://example.com:80"])
+    for bad in ("evil.example.com", "https://", "https:evil.example.com", "//", "about:blank", "xyz", "http://:80", ":80"):
+        assert classify_request(req.replace(b"http://example.com", bad.encode()), restricted).reasons == ["origin-hostless-not-allowed"], bad
+        assert classify_request(req.replace(b"http://example.com", bad.encode()), ServerCfg()).cls == "grey", bad
+    for g in ("NULL", "file:///x", "//example.com", "http://Example.com"):
+        assert classify_request(req.replace(b"http://example.com", g.encode()), restricted).cls == "grey", g
+    assert allow_list_is_restricted(["*://*.good.com:*"]) and not allow_list_is_restricted(["*"]) and not allow_list_is_restricted(["x://a:1", "*://*:*"])
+    cc2 = ClientCfg(key="dGhlIHNhbXBsZSBub25jZQ==", protocols=["chat"], offered=["permessage-deflate"], approves=True)
+    ext = lambda v: resp.replace(b"\r\n\r\n", b"\r\nSec-WebSocket-Extensions: " + v + b"\r\n\r\n")     # noqa: E731
+    assert classify_response(ext(b"permessage-deflate"), cc2).cls == "accept"
+    assert classify_response(ext(b"permessage-deflate, x-webkit-deflate-frame"), cc2).reasons == ["extension-unknown"]
+    assert classify_response(ext(b"permessage-deflate, permessage-bzip2"), cc2).reasons == ["extension-not-offered"]
+    assert classify_response(ext(b"permessage-deflate, permessage-deflate"), cc2).reasons == ["extension-duplicate"]
     assert check_client_request(req, "server.example.com", None, "/chat", None) == []
     assert check_client_request(req, "server.example.com", 9000, "/chat", None)[0][0] == "host-port-missing"
     assert check_client_request(req, "server.example.com", None, "/chat;v=1", None)[0][0] == "request-target"
